@@ -197,6 +197,22 @@ def scalars_in_function(f):
     return out
 
 
+def add_holes(f, rnd):
+    """Insert filler nops and schedule their removal (Block::remove_instruction) so that the
+    instruction indices of some blocks are not dense and positions differ from indices."""
+    rm = []
+    for b in f["cfg"]["blocks"]:
+        if b["instructions"] and rnd.random() < 0.6:
+            pos = rnd.randint(0, len(b["instructions"]) - 1)
+            b["instructions"].insert(pos, {"op": ["nop"], "address": 0x3000})
+            for i, ins in enumerate(b["instructions"]):
+                ins["index"] = i
+            rm.append([b["index"], pos])
+    if rm:
+        f["remove"] = rm
+    return f
+
+
 def corpus(seed, count, profile="mixed", widths=(32, 8), sp=None, skeletons=None, extra=None):
     rnd = random.Random(seed)
     names = skeletons or [k for k in SKELETONS if not k.startswith("unreachable")]
